@@ -169,7 +169,7 @@ func (a *An) c05NewSession() {
 	}
 	n := 0
 	for _, st := range a.DirectStoresTo(fld) {
-		if st.Parent() != fn {
+		if !a.C.within(st, fn) {
 			continue
 		}
 		n++
@@ -193,7 +193,7 @@ func (a *An) fragmentResetBeforeDispatch(rule string) {
 	}
 	var resets []ssa.Instruction
 	for _, st := range a.DirectStoresTo(fld) {
-		if st.Parent() != fn {
+		if !a.C.within(st, fn) {
 			continue
 		}
 		t := a.C.Term(st.Val)
@@ -291,7 +291,7 @@ func (a *An) c05Retire() {
 	R.Check(nw >= 1 && nk >= 1, rule, "forgetCounters|shape", "forgetCounters erases retired records and keeps the others", a.C.Pos(fn.Pos()), fmt.Sprintf("%d erasing instructions, %d keeps", nw, nk))
 	// the history slice is replaced by the kept records
 	for _, st := range a.DirectStoresTo(a.MustField("counterHistory", "counters")) {
-		if st.Parent() != fn {
+		if !a.C.within(st, fn) {
 			continue
 		}
 		t := a.C.Term(st.Val)
